@@ -120,6 +120,9 @@ theorem shutInv_step {s s' : QState} {ev : Ev} (hr : Reachable s) (hi : ShutInv 
   | dropHandle =>
     simp only [step] at h; split at h <;> cases h
     exact shutInv_frame hi rfl rfl rfl rfl rfl rfl rfl (fun h0 => by simp [h0])
+  | setSubscriber b =>
+    simp only [step] at h; cases h
+    exact shutInv_frame hi rfl rfl rfl rfl rfl rfl rfl id
   | forget =>
     simp only [step] at h; split at h <;> cases h
     rename_i hj
@@ -433,6 +436,7 @@ theorem exited_step {s s' : QState} {ev : Ev} (hex : s.wpc = .exited) (h : step 
   | clone => simp only [step] at h; split at h <;> cases h; exact ⟨hex, rfl⟩
   | dropHandle => simp only [step] at h; split at h <;> cases h; exact ⟨hex, rfl⟩
   | forget => simp only [step] at h; split at h <;> cases h; exact ⟨hex, rfl⟩
+  | setSubscriber b => simp only [step] at h; cases h; exact ⟨hex, rfl⟩
   | dropJoinBegin => simp only [step] at h; split at h <;> cases h; exact ⟨hex, rfl⟩
   | dropJoinUnpark => simp only [step] at h; split at h <;> cases h; exact ⟨hex, rfl⟩
   | dropJoinEnd => simp only [step] at h; split at h <;> cases h; exact ⟨hex, by simp [delivered]⟩
@@ -486,6 +490,7 @@ theorem c05_forget_path {s : QState} (c : Clock) (hpc : s.wpc = .checkHandles) (
   | clone => simp [step, hh] at h
   | dropHandle => simp [step, hh] at h
   | forget => simp only [step] at h; split at h <;> cases h; exact hh
+  | setSubscriber b => simp only [step] at h; cases h; exact hh
   | dropJoinBegin => simp only [step] at h; split at h <;> cases h; exact hh
   | dropJoinUnpark => simp only [step] at h; split at h <;> cases h; exact hh
   | dropJoinEnd => simp only [step] at h; split at h <;> cases h; exact hh
@@ -617,6 +622,7 @@ theorem shutdownWakes_step {s s' : QState} {ev : Ev} (hi : ShutdownWakes s) (h :
   | flushUnpark i => simp only [step] at h; split at h <;> cases h; simp
   | clone => simp only [step] at h; split at h <;> cases h; exact hi
   | dropHandle => simp only [step] at h; split at h <;> cases h; exact hi
+  | setSubscriber b => simp only [step] at h; cases h; exact hi
   | forget =>
     simp only [step] at h; split at h <;> cases h
     rename_i hj
